@@ -173,12 +173,37 @@ def handshakeOk (p : Plan) (chainOk : Bool) (sans : List GName) : Bool :=
     chainOk && (match p.ref with | some r => osslMatches sans r | none => true)
   else true
 
+/-- `TlsConfig.quic_start_server` + `QuicLayer.start_tls` (the QUIC / HTTP-3 upstream path): the same effective server name;
+    it is handed to aioquic as `server_name` unchanged (also sent as SNI, IP literal or not), and aioquic verifies the
+    certificate against it as an IP address if it is a literal, as a host name otherwise — there is no branch without a
+    reference identifier while `verify_mode` is CERT_REQUIRED. -/
+def startServerQuic (classify : Bytes → Option GName) (c : Cfg) : StartRes :=
+  let sni := effSni c
+  match classify sni with
+  | some (.ip a) => .plan ⟨!c.insecure, some sni, some (.addr a), 0⟩
+  | some (.dns h) => .plan ⟨!c.insecure, some sni, some (.host h), 0⟩
+  | _ => .plan ⟨!c.insecure, some sni, some (.host sni), 0⟩
+
+inductive Transport where
+  | tcp | quic
+  deriving DecidableEq, Repr
+
+def startServerT (tr : Transport) (classify : Bytes → Option GName) (hostflags : Nat) (c : Cfg) : StartRes :=
+  match tr with
+  | .tcp => startServer classify hostflags c
+  | .quic => startServerQuic classify c
+
 inductive Outcome where
   | established | failed | hookRaised
   deriving DecidableEq, Repr
 
 def outcome (classify : Bytes → Option GName) (hostflags : Nat) (c : Cfg) (chainOk : Bool) (sans : List GName) : Outcome :=
   match startServer classify hostflags c with
+  | .plan p => if handshakeOk p chainOk sans then .established else .failed
+  | _ => .hookRaised
+
+def outcomeT (tr : Transport) (classify : Bytes → Option GName) (hostflags : Nat) (c : Cfg) (chainOk : Bool) (sans : List GName) : Outcome :=
+  match startServerT tr classify hostflags c with
   | .plan p => if handshakeOk p chainOk sans then .established else .failed
   | _ => .hookRaised
 
